@@ -151,6 +151,7 @@ namespace pl
     {
         int type;  // 0 ball, 1 box
         double c[3], r, h[3];
+        bool wall = false;  // part of the narrow-passage wall (lies between the corner regions by construction)
     };
     struct Slab
     {
@@ -191,6 +192,7 @@ namespace pl
         std::vector<Obst> obst;
         Slab slab;
         double res = 0.01, rl = 0, wpos = 1, whead = 0, ext = 0;
+        double slit = 0;  // width of the slit of a narrow-passage world (0: none)
         int segFactor = 1;
         double lo = 0, hi = 10;
         double rho = 1;  // Dubins / RS
@@ -411,8 +413,8 @@ namespace pl
         Rng rng(seed);
         // direction-dependent spaces: half of the worlds are cluttered with many small discs and have a small turning radius (a
         // curve and its reverse then differ in validity far more often, which is what exposes direction mix-ups)
-        // (fixedObst == -2 forces the cluttered variant)
-        const bool clutter = (kind == K_DUBINS || kind == K_RS) && fixedObst < 0 && (rng.coin(0.5) || fixedObst == -2);
+        // (fixedObst == -2 forces the cluttered variant, -4 forces it for every kind of space)
+        const bool clutter = ((kind == K_DUBINS || kind == K_RS) && fixedObst < 0 && (rng.coin(0.5) || fixedObst == -2)) || fixedObst == -4;
         auto w = makeSpace(kind, rng, clutter);
         w->hash = seed;
         w->si = std::make_shared<ob::SpaceInformation>(w->space);
@@ -442,6 +444,42 @@ namespace pl
             o.r = clutter ? minHalf * rng.uni(1.0, 1.6) : minHalf + rng.uni(0, 1.0);
             for (int d = 0; d < 3; ++d) o.h[d] = minHalf + rng.uni(0, d == 0 ? 0.6 : 1.6);
             w->obst.push_back(o);
+        }
+        if (fixedObst == -3)
+        {
+            // narrow passage: a wall across the space between the start and the goal corner with one slit (two boxes). This is
+            // where planners fall back to their repair / extension paths (re-validation of lazy edges, FMT's extension, ...)
+            Rng r2(hmix(seed, 0x511));
+            double cx = r2.uni(4.5, 5.5), hx = std::min(1.1, minHalf + r2.uni(0, 0.5));
+            double gy = r2.uni(w->lo + 1.5, w->hi - 1.5), gw = r2.logUni(0.02, 0.3);
+            for (int side = 0; side < 2; ++side)
+            {
+                Obst o{};
+                o.type = 1;
+                o.wall = true;
+                double y0 = side == 0 ? w->lo - 1.0 : gy + gw / 2, y1 = side == 0 ? gy - gw / 2 : w->hi + 1.0;
+                o.c[0] = cx, o.h[0] = hx;
+                o.c[1] = (y0 + y1) / 2, o.h[1] = (y1 - y0) / 2;
+                o.c[2] = (w->lo + w->hi) / 2, o.h[2] = (w->hi - w->lo);
+                w->obst.push_back(o);
+            }
+            if (w->pd == 3)
+            {
+                // with three position coordinates the slit becomes a window
+                double gz = r2.uni(w->lo + 1.5, w->hi - 1.5), gwz = gw * r2.uni(1.0, 6.0);
+                for (int side = 0; side < 2; ++side)
+                {
+                    Obst o{};
+                    o.type = 1;
+                    o.wall = true;
+                    double z0 = side == 0 ? w->lo - 1.0 : gz + gwz / 2, z1 = side == 0 ? gz - gwz / 2 : w->hi + 1.0;
+                    o.c[0] = cx, o.h[0] = hx;
+                    o.c[1] = gy, o.h[1] = gw / 2 + 1e-9;
+                    o.c[2] = (z0 + z1) / 2, o.h[2] = (z1 - z0) / 2;
+                    w->obst.push_back(o);
+                }
+            }
+            w->slit = gw;
         }
         if (w->hasHeading && rng.coin(0.5))
         {
@@ -473,6 +511,7 @@ namespace pl
         // the two corner regions are kept free of obstacles so that valid start/goal states always exist
         w->obst.erase(std::remove_if(w->obst.begin(), w->obst.end(),
                                      [&](const Obst &o) {
+                                         if (o.wall) return false;
                                          double e = o.type == 0 ? o.r : std::max(o.h[0], o.h[1]);
                                          auto near = [&](double cx, double cy) {
                                              return std::fabs(o.c[0] - cx) < e + 1.6 && std::fabs(o.c[1] - cy) < e + 1.6;
@@ -730,8 +769,20 @@ namespace pl
             if (rng.coin()) q->setMaxNumberOfGoals(2 + rng.ui(9));
         if (auto *q = dynamic_cast<og::EITstar *>(p.get()))
             if (rng.coin()) q->setMaxNumberOfGoals(2 + rng.ui(9));
-        if (auto *q = dynamic_cast<og::FMT *>(p.get())) q->setNumSamples(300 + rng.ui(500));
-        if (auto *q = dynamic_cast<og::BFMT *>(p.get())) q->setNumSamples(300 + rng.ui(500));
+        // (a third of the FMT* runs start from a sample set that is too small to connect the query: the extension phase has to)
+        // and from a smaller neighbourhood than the default
+        if (auto *q = dynamic_cast<og::FMT *>(p.get()))
+        {
+            const bool sparse = rng.coin(0.2);
+            q->setNumSamples(sparse ? 15 + rng.ui(100) : 300 + rng.ui(500));
+            if (sparse) q->setRadiusMultiplier(rng.uni(0.4, 0.9));
+        }
+        if (auto *q = dynamic_cast<og::BFMT *>(p.get()))
+        {
+            const bool sparse = rng.coin(0.2);
+            q->setNumSamples(sparse ? 15 + rng.ui(100) : 300 + rng.ui(500));
+            if (sparse) q->setRadiusMultiplier(rng.uni(0.4, 0.9));
+        }
         if (w.rangeMode != 0 && p->params().hasParam("range"))
         {
             double r = w.rangeMode == 1 ? 0.02 * w.ext : 2.0 * w.ext;
